@@ -37,8 +37,8 @@ func init() {
 
 func genC06(r *sim.Rand, tier string) *sim.Program {
 	p := &sim.Program{Prop: "C06"}
-	kk := r.Weighted(10, 1, 1, 1, 1, 1, 1)
-	p.SetC("keykind", kk) // 0 random, 1 d=1, 2 d=n-2, 3 d=n-1 (struct), 4 d=n (struct), 5 d=n+1 (struct), 6 d=0 (struct)
+	kk := r.Weighted(20, 2, 2, 2, 2, 2, 2, 1, 1, 1)
+	p.SetC("keykind", kk) // 0 random, 1 d=1, 2 d=n-2, 3 d=n-1 (struct), 4 d=n (struct), 5 d=n+1 (struct), 6 d=0 (struct), 7 d=2^256, 8 d=2^300+1, 9 d=3n+7 (struct)
 	p.SetCB("d", r.Bytes(32))
 	p.SetCB("d2", r.Bytes(32))
 	nops := r.Range(2, 10)
@@ -59,6 +59,9 @@ func genC06(r *sim.Rand, tier string) *sim.Program {
 			case 1:
 				// constructive: the digest makes the FIRST scripted nonce hit a retry condition (r = 0, r+k = n, s = 0)
 				p.Add("signretry", r.Intn(1<<30), r.Intn(3))
+			case 2:
+				// constructive forgery attempt: r + s = n with the digest that would satisfy the equation if t = 0 were not refused
+				p.Add("tzero", r.Intn(1<<30))
 			default:
 				p.Add("sign", r.Intn(3), r.Intn(1<<30)).WithB(r.Bytes(uidLen()), r.Bytes(r.PickInt(0, 1, 32, 33, 100, 300)))
 			}
@@ -112,6 +115,14 @@ func c06Key(kk int, dBytes []byte) (*sm2.PrivateKey, *big.Int, error) {
 		d.Set(n)
 	case 5:
 		d.Add(n, big.NewInt(1))
+	case 7:
+		d.Lsh(big.NewInt(1), 256)
+	case 8:
+		d.Lsh(big.NewInt(1), 300)
+		d.Add(d, big.NewInt(1))
+	case 9:
+		d.Mul(n, big.NewInt(3))
+		d.Add(d, big.NewInt(7))
 	default:
 		d.SetInt64(0)
 	}
@@ -131,7 +142,7 @@ func c06Key(kk int, dBytes []byte) (*sm2.PrivateKey, *big.Int, error) {
 func execC06(t *testing.T, p *sim.Program, c *sim.Ctx) {
 	verifhook.SetMaybeReadDecider(func() bool { return false })
 	defer verifhook.SetMaybeReadDecider(nil)
-	kk := ((p.C("keykind") % 7) + 7) % 7
+	kk := ((p.C("keykind") % 10) + 10) % 10
 	priv, d, err := c06Key(kk, p.CB("d"))
 	if kk <= 2 && err != nil {
 		c.Fail("setup", -1, "setup", "NewPrivateKey refused a valid scalar (kind %d): %v", kk, err)
@@ -251,6 +262,26 @@ func execC06(t *testing.T, p *sim.Program, c *sim.Ctx) {
 			sg := &c06Sig{uid: uid, msg: msg, e: e[:], sig: sig}
 			sigs = append(sigs, sg)
 			deliver(i, "sign", &priv.PublicKey, pub, uid, msg, sig)
+			continue
+		}
+		if op.K == "tzero" {
+			// (r, s) with t = (r+s) mod n = 0 and e = r - x([s]G): R = (e + x([s]G + [0]P)) = r, so only the explicit
+			// t = 0 rejection of GB/T 32918.2 7.1 step B6 stands between this pair and acceptance under ANY public key
+			n := sm2m.N
+			sb := derive(append([]byte(fmt.Sprint(op.Int(0))), p.CB("d")...), "tz", 32)
+			sb[0] &= 0x7f
+			sb[31] |= 1
+			sv := new(big.Int).SetBytes(sb)
+			rv := new(big.Int).Sub(n, sv)
+			x1 := sm2m.ScalarBaseMult(sv).X
+			e := new(big.Int).Sub(rv, x1)
+			e.Mod(e, n)
+			c.Abs("tzero")
+			c.Hit("probe:t-zero-forgery-attempt")
+			rawDigest = e.FillBytes(make([]byte, 32))
+			deliver(i, "t-zero-forgery", &priv.PublicKey, pub, nil, nil, sm2m.MarshalDERSig(rv, sv))
+			deliver(i, "t-zero-forgery-other-key", &other.PublicKey, opub, nil, nil, sm2m.MarshalDERSig(rv, sv))
+			rawDigest = nil
 			continue
 		}
 		if op.K == "smallr" || op.K == "signretry" {
